@@ -26,7 +26,7 @@ harness(void) {
 
   vp_fill(in, VP_N);
 
-#if VP_MODE == 0
+#if VP_MODE == 0 || VP_MODE == 9
   {
     uint32_t v32;
     uint64_t v64;
@@ -71,7 +71,8 @@ harness(void) {
     if (ok)
       VP_ASSERT(v64 == r && s.data == in + c && s.size == VP_N - c, "varint64_slurp == reference");
   }
-#elif VP_MODE == 1
+#endif
+#if VP_MODE == 1 || VP_MODE == 9
   {
     uint32_t f32 = 0;
     uint64_t f64 = 0;
@@ -125,7 +126,8 @@ harness(void) {
     if (ok)
       VP_ASSERT(zp == in && xp == in + zn && xn == VP_N - zn, "zraw_read == reference");
   }
-#else
+#endif
+#if VP_MODE == 2 || VP_MODE == 9
   {
     ldb_slice_t z, s, src;
     ldb_buffer_t b;
